@@ -125,7 +125,9 @@ func (e *Explorer) runOnce(body func()) {
 					e.Infeasible++
 				} else {
 					e.Aborted++
-					if strings.HasPrefix(r.reason, "unsupported") || strings.HasPrefix(r.reason, "limit") {
+					if r.reason != "assert-always-fails" {
+						// unsupported construct, exceeded bound (unwinding), engine defect: the
+						// path was not explored to its end, so the run is not a pass
 						e.Unsupported[r.reason]++
 					}
 				}
